@@ -25,14 +25,15 @@ EXTENDS TsEraseTypes, Json
 
 CONSTANTS Families,  \* the skeleton sub-grammars explored (one initial state each)
           MaxLen,    \* bound on the number of skeleton tokens (slots included)
-          MaxIns,    \* bound on the number of insertions per variant
+          MaxIns,    \* bound on the number of independent insertions per variant
+          MaxDep,    \* bound on the number of dependent insertions (fillers that need a name given by another filler)
           RichMode   \* 0: core fillers only; 1: a rich filler only as the single insertion; 2: at most one rich filler among the insertions
 
 VARIABLES fam,       \* the skeleton sub-grammar of this behaviour
           phase,     \* "derive" | "insert"
           form,      \* sentential form / frozen skeleton with slot markers
           used,      \* productions applied
-          ins,       \* set of insertions [pos, kind, name, fl, len, gives]
+          ins,       \* set of insertions [pos, kind, name, fl, len, gives, dep]
           typed,     \* sequence of [t |-> token, s |-> "v" | "t"]
           exported   \* BOOLEAN: this variant has been exported
 vars == <<fam, phase, form, used, ins, typed, exported>>
@@ -48,7 +49,6 @@ MemberFillerSeq == <<
   F(<<"mem-declare-public">>, {"amb", "rich"}, <<"public", "declare", "dp", "?", ":", "T", ";">>),
   F(<<"mem-index-sig">>, {"amb", "rich"}, <<"[", "key", ":", "string", "]", ":", "T", ";">>),
   F(<<"mem-index-sig-static-readonly">>, {"amb", "rich"}, <<"static", "readonly", "[", "key", ":", "string", "]", ":", "T", ";">>),
-  F(<<"mem-overload">>, {"amb", "rich"}, <<"ov", "(", "a", ":", "string", ")", ":", "void", ";", "ov", "(", "a", ":", "number", ")", ":", "void", ";", "ov", "(", "a", ":", "any", ")", "{", "}">>),
   F(<<"mem-ctor-overload">>, {"amb", "rich"}, <<"constructor", "(", "a", ":", "string", ")", ";">>) >>
 MemberFillers == Sample(MemberFillerSeq)
 AbstractMemberFillers == MemberFillers \cup {
@@ -99,6 +99,9 @@ FillersOfKind(k) ==
     [] k = "@ovl"   -> OverloadFillers
     [] k = "@mem"   -> MemberFillers
     [] k = "@mema"  -> AbstractMemberFillers
+    [] k = "@movl"  -> {F(<<"method-overload">>, {"amb"}, <<"m", "(", "a", ":", "string", ")", ":", "void", ";">>),
+                        F(<<"method-overload-2">>, {"amb", "rich"}, <<"public", "m", "<", "T", ">", "(", "a", ":", "T", ")", ":", "void", ";", "public", "m", "(", ")", ":", "void", ";">>),
+                        F(<<"method-overload-optional">>, {"amb", "rich"}, <<"m", "?", "(", "a", ":", "string", ")", ":", "void", ";">>)}
     [] k = "@mod"   -> ModAccess
     [] k = "@modf"  -> ModField
     [] k = "@mods"  -> {F(<<"mod-readonly">>, {}, <<"readonly">>)}                       \* after "static"
@@ -128,7 +131,7 @@ FillersOfKind(k) ==
 SlotKinds == {"@annv", "@annl", "@annp", "@annpn", "@annpd", "@annpr", "@annf", "@annfi", "@annfp", "@annc",
               "@ret", "@retp", "@retm", "@reta", "@retpa", "@retasync", "@retasynca", "@retgen", "@retagen",
               "@tp", "@tpa", "@tpc", "@ta", "@tai", "@cast", "@post", "@postb", "@nn", "@stmt", "@ovl", "@mem", "@mema",
-              "@mod", "@modf", "@mods", "@modo", "@abs", "@impl", "@thisp", "@thisp0", "@impi", "@impi2", "@cimp", "@cstmt", "@cuse"}
+              "@movl", "@mod", "@modf", "@mods", "@modo", "@abs", "@impl", "@thisp", "@thisp0", "@impi", "@impi2", "@cimp", "@cstmt", "@cuse"}
 AmbKinds == {"@reta", "@retpa", "@retasynca", "@tpa", "@ta", "@tai", "@cast", "@nn", "@thisp", "@thisp0", "@ovl"}
 IsSlot(t) == t \in SlotKinds
 FillerTable == [k \in SlotKinds |-> FillersOfKind(k)]
@@ -168,7 +171,7 @@ Decl(nt) ==
                     P("e-fn-expr", {}, <<"function", "@tp", "(", "@thisp0", ")", "@ret", "{", "}">>),
                     P("e-arrow", {"amb"}, <<"@tpa", "(", "a", "@annp", ")", "@reta", "=>", "a", "@post">>),
                     P("e-cond", {"amb"}, <<"a", "@postb", "?", "b", "@post", ":", "c", "@post">>),
-                    P("e-binary", {}, <<"a", "@postb", "+", "b", "@postb", "*", "c", "@post">>),
+                    P("e-binary", {}, <<"a", "@postb", "*", "b", "@postb", "+", "c", "@post">>),
                     P("e-logical", {}, <<"a", "@postb", "&&", "b", "@postb", "||", "c", "@post">>),
                     P("e-nullish-comma", {}, <<"(", "a", "@postb", "??", "b", "@postb", ",", "c", "@post", ")">>),
                     P("e-cast", {"amb"}, <<"@cast", "a">>),
@@ -184,11 +187,11 @@ Fn(nt) ==
                        P("f-async-gen", {}, <<"async", "function", "*", "g", "@tp", "(", "a", "@annp", ")", "@retagen", "{", "}">>),
                        P("f-expr", {}, <<"x", "=", "function", "@tp", "(", "Params", ")", "@ret", "{", "}", ";">>),
                        P("f-pred", {"amb"}, <<"function", "f", "@tp", "(", "a", "@annp", ")", "@retp", "{", "return", "true", ";", "}">>),
-                       P("f-arrow", {"amb"}, <<"x", "=", "@tpa", "(", "Params", ")", "@reta", "=>", "a", ";">>),
-                       P("f-arrow-block", {"amb"}, <<"x", "=", "@tpa", "(", "Params", ")", "@reta", "=>", "{", "}", ";">>),
+                       P("f-arrow", {"amb"}, <<"x", "=", "@tpa", "(", "ParamsA", ")", "@reta", "=>", "a", ";">>),
+                       P("f-arrow-block", {"amb"}, <<"x", "=", "@tpa", "(", "ParamsA", ")", "@reta", "=>", "{", "}", ";">>),
                        P("f-arrow-obj", {"amb"}, <<"x", "=", "@tpa", "(", "a", "@annp", ")", "@reta", "=>", "(", "{", "a", "}", ")", ";">>),
                        P("f-arrow-pred", {"amb"}, <<"x", "=", "(", "a", "@annp", ")", "@retpa", "=>", "true", ";">>),
-                       P("f-async-arrow", {"amb"}, <<"x", "=", "async", "@tpa", "(", "Params", ")", "@retasynca", "=>", "a", ";">>),
+                       P("f-async-arrow", {"amb"}, <<"x", "=", "async", "@tpa", "(", "ParamsA", ")", "@retasynca", "=>", "a", ";">>),
                        P("f-arrow-in-cond", {"amb"}, <<"x", "=", "a", "?", "@tpa", "(", "b", "@annp", ")", "@reta", "=>", "c", ":", "d", ";">>),
                        P("f-arrow-in-cond-alt", {"amb"}, <<"x", "=", "a", "?", "b", ":", "@tpa", "(", "c", "@annp", ")", "@reta", "=>", "d", ";">>),
                        P("f-arrow-in-cond-paren", {"amb"}, <<"x", "=", "a", "?", "(", "b", "@post", ")", ":", "(", "c", "@annp", ")", "@reta", "=>", "d", ";">>),
@@ -202,6 +205,9 @@ Fn(nt) ==
                                                 "set", "g", "(", "v", "@annpn", ")", "{", "}", ",", "async", "*", "ag", "@tp", "(", ")", "@retagen", "{", "}", ",", "[", "k", "]", "@tp", "(", ")", "@ret", "{", "}", "}", ";">>),
                        P("f-iife", {"amb"}, <<"(", "function", "@tp", "(", "a", "@annp", ")", "@ret", "{", "}", ")", "(", "b", "@post", ")", ";">>),
                        P("f-arrow-iife", {"amb"}, <<"(", "@tpa", "(", "a", "@annp", ")", "@reta", "=>", "a", ")", "(", "b", "@post", ")", ";">>)}
+    [] nt = "ParamsA" -> {P("aa-none", {}, <<>>), P("aa-1", {}, <<"a", "@annp">>), P("aa-2", {}, <<"a", "@annpn", ",", "b", "@annp">>),
+                          P("aa-default", {}, <<"a", "@annpd", "=", "1">>), P("aa-rest", {}, <<"...", "r", "@annpr">>),
+                          P("aa-destr", {}, <<"{", "a", "}", "@annpn", ",", "[", "b", "]", "@annpd", "=", "[", "]">>)}
     [] nt = "Params" -> {P("pa-none", {}, <<"@thisp0">>), P("pa-1", {}, <<"@thisp", "a", "@annp">>), P("pa-2", {}, <<"a", "@annpn", ",", "b", "@annp">>),
                          P("pa-default", {}, <<"a", "@annpd", "=", "1">>), P("pa-rest", {}, <<"a", "@annp", ",", "...", "r", "@annpr">>),
                          P("pa-destr-obj", {}, <<"{", "a", ",", "b", "}", "@annpn">>), P("pa-destr-arr-default", {}, <<"[", "a", "]", "@annpd", "=", "[", "]">>),
@@ -224,7 +230,7 @@ Class(nt) ==
     [] nt = "Mem" -> {P("m-field", {"field"}, <<"@modf", "x", "@annf", ";">>),
                       P("m-field-init", {"field"}, <<"@modf", "x", "@annfi", "=", "1", ";">>),
                       P("m-static-field", {"field"}, <<"@modf", "static", "@mods", "y", "@annfi", "=", "1", ";">>),
-                      P("m-method", {}, <<"@mod", "m", "@tp", "(", "Params1", ")", "@retm", "{", "}">>),
+                      P("m-method", {}, <<"@movl", "@mod", "m", "@tp", "(", "Params1", ")", "@retm", "{", "}">>),
                       P("m-static-method", {}, <<"@mod", "static", "s", "@tp", "(", "Params1", ")", "@ret", "{", "}">>),
                       P("m-getter", {}, <<"@mod", "get", "g", "(", ")", "@ret", "{", "return", "1", ";", "}">>),
                       P("m-setter", {}, <<"@mod", "set", "g", "(", "v", "@annpn", ")", "{", "}">>),
@@ -320,7 +326,7 @@ Cmp(nt) ==
                        P("k-lt-shr", {"amb"}, <<"x", "=", "a", "<", "b", ">>", "c", ";">>), P("k-shl-gt", {"amb"}, <<"x", "=", "a", "<<", "b", ">", "(", "c", ")", ";">>),
                        P("k-lt-ge", {"amb"}, <<"x", "=", "a", "<", "b", ">=", "c", ";">>), P("k-ushr-assign", {}, <<"x", ">>>=", "a", ">>", "b", ";">>),
                        P("k-lt-gt-dot", {"amb"}, <<"x", "=", "a", "<", "b", ">", "c", ".", "d", ";">>),
-                       P("k-lt-num-gt", {"amb"}, <<"x", "=", "a", "<", "1", ">", "(", "c", ")", ";">>),
+                       P("k-lt-num-gt", {"amb", "tsdiff"}, <<"x", "=", "a", "<", "1", ">", "(", "c", ")", ";">>),
                        P("k-lt-gt-new", {"amb"}, <<"x", "=", "a", "<", "b", ">", "new", "C", ";">>),
                        P("k-lt-gt-bracket", {"amb"}, <<"x", "=", "a", "<", "b", ">", "[", "c", "]", ";">>),
                        P("k-lt-gt-obj", {"amb"}, <<"x", "=", "a", "<", "b", ">", "{", "}", ";">>),
@@ -349,7 +355,7 @@ Cmp(nt) ==
                        P("k-kw-obj-key", {"amb"}, <<"x", "=", "{", "W", ":", "1", ",", "W2", "(", ")", "{", "}", "}", ";">>),
                        P("k-kw-obj-short", {"amb"}, <<"x", "=", "{", "W", "}", ";">>),
                        P("k-kw-arrow-param", {"amb"}, <<"x", "=", "W", "=>", "W", ";">>), P("k-kw-arrow-paren", {"amb"}, <<"x", "=", "(", "W", ",", "W2", ")", "=>", "W", ";">>),
-                       P("k-kw-in", {"amb"}, <<"x", "=", "a", "in", "W", ";">>), P("k-kw-binary", {"amb"}, <<"x", "=", "W", "<", "W2", ">", "(", "a", ")", ";">>),
+                       P("k-kw-in", {"amb"}, <<"x", "=", "a", "in", "W", ";">>), P("k-kw-binary", {"amb", "tsdiff"}, <<"x", "=", "W", "<", "W2", ">", "(", "a", ")", ";">>),
                        P("k-class-kw-fields", {"amb", "field"}, <<"class", "C", "{", "W", ";", "W2", "=", "1", ";", "}">>),
                        P("k-class-kw-methods", {"amb"}, <<"class", "C", "{", "W", "(", ")", "{", "}", "static", "W2", "(", ")", "{", "}", "}">>),
                        P("k-class-kw-nl", {"amb", "field"}, <<"class", "C", "{", "W", "<NL>", "x", ";", "}">>),
@@ -365,7 +371,7 @@ Cmp(nt) ==
                        P("k-export-type-as-b", {"amb", "mod"}, <<"var", "type", ";", "export", "{", "type", "as", "b", "}", ";">>),
                        P("k-export-type-from", {"amb", "mod"}, <<"export", "{", "type", "}", "from", "'m'", ";">>),
                        P("k-as-satisfies-binary", {"amb"}, <<"var", "as", ",", "satisfies", ";", "x", "=", "as", "<", "satisfies", ";", "x", "=", "a", "in", "as", ";">>),
-                       P("k-regex-after-gt", {"amb"}, <<"x", "=", "a", "<", "b", ">", "/c/", ".", "d", ";">>),
+                       P("k-regex-after-gt", {"amb", "tsdiff"}, <<"x", "=", "a", "<", "b", ">", "/c/", ".", "d", ";">>),
                        P("k-optional-chain-cond", {"amb"}, <<"x", "=", "a", "?", ".5", ":", "b", ";">>),
                        P("k-bang-bang", {"amb"}, <<"x", "=", "!", "!", "a", ";", "x", "=", "a", "!=", "b", ";", "x", "=", "a", "!==", "b", ";">>),
                        P("k-enum-like-iife", {}, <<"var", "E", ";", "(", "function", "(", "E", ")", "{", "E", "[", "E", "[", "'A'", "]", "=", "0", "]", "=", "'A'", ";", "}", ")", "(", "E", "||", "(", "E", "=", "{", "}", ")", ")", ";">>)}
@@ -407,17 +413,17 @@ Jsx(nt) ==
 
 (* a small file tree: type-only imports/exports across files (bundle mode) *)
 Bundle(nt) ==
-  CASE nt = "Prog" -> {P("b-import-named", {"mod"}, <<"<FILE entry.ts>", "@cuse", "import", "{", "v", "@cimp", "}", "from", "'./lib'", ";", "@cuse", "console", ".", "log", "(", "v", "@post", ")", ";",
+  CASE nt = "Prog" -> {P("b-import-named", {"mod"}, <<"<FILE entry.ts>", "import", "{", "v", "@cimp", "}", "from", "'./lib'", ";", "@cuse", "console", ".", "log", "(", "v", "@post", ")", ";",
                                                      "<FILE lib.ts>", "@cstmt", "export", "const", "v", "@annv", "=", "1", ";", "@cstmt", "<FILE other.ts>", "export", "const", "Other", "=", "2", ";">>),
-                       P("b-reexport", {"mod"}, <<"<FILE entry.ts>", "@cuse", "export", "{", "v", "@cimp", "}", "from", "'./lib'", ";", "@cuse",
+                       P("b-reexport", {"mod"}, <<"<FILE entry.ts>", "export", "{", "v", "@cimp", "}", "from", "'./lib'", ";", "@cuse",
                                                   "<FILE lib.ts>", "@cstmt", "export", "const", "v", "@annv", "=", "1", ";", "@cstmt", "<FILE other.ts>", "export", "const", "Other", "=", "2", ";">>),
-                       P("b-import-export", {"mod"}, <<"<FILE entry.ts>", "import", "{", "v", "@cimp", "}", "from", "'./lib'", ";", "@cuse", "export", "{", "v", "}", ";", "@cuse",
+                       P("b-import-export", {"mod"}, <<"<FILE entry.ts>", "import", "{", "v", "@cimp", "}", "from", "'./lib'", ";", "@cuse", "export", "{", "v", "}", ";",
                                                        "<FILE lib.ts>", "@cstmt", "export", "function", "v", "@tp", "(", ")", "@ret", "{", "return", "1", ";", "}", "@cstmt",
                                                        "<FILE other.ts>", "export", "const", "Other", "=", "2", ";">>)}
 
 NonTerminalsOf(g) ==
   CASE g = "decl" -> {"Prog", "K", "E"}
-    [] g = "fn" -> {"Prog", "Params"}
+    [] g = "fn" -> {"Prog", "Params", "ParamsA"}
     [] g = "class" -> {"Prog", "Her", "Her1", "Mem", "MemS", "Mem2", "Params1"}
     [] g = "expr" -> {"Prog"}
     [] g = "cmp" -> {"Prog", "W", "W2"}
@@ -484,21 +490,22 @@ Freeze ==
   /\ UNCHANGED <<fam, form, used, ins, exported>>
 
 RichOK(f) ==
-  LET nr == Cardinality({i \in ins : "rich" \in i.fl})
-  IN IF "rich" \in f.fl THEN nr = 0 /\ (RichMode = 2 \/ (RichMode = 1 /\ ins = {}))
+  LET nr == Cardinality({i \in ins : "rich" \in i.fl /\ ~i.dep})
+  IN IF f.needs # "" THEN TRUE
+     ELSE IF "rich" \in f.fl THEN nr = 0 /\ (RichMode = 2 \/ (RichMode = 1 /\ ins = {}))
      ELSE (nr = 0 \/ RichMode = 2)
 
 Insert ==
   /\ phase = "insert" /\ exported
-  /\ Cardinality(ins) < MaxIns
   /\ \E p \in SlotPositions(form) :
        /\ ~\E i \in ins : i.pos = p
        /\ \E f \in FillerTable[form[p]] :
             /\ RichOK(f)
-            /\ f.needs = "" \/ f.needs \in Given
+            /\ IF f.needs = "" THEN Cardinality({i \in ins : ~i.dep}) < MaxIns
+                                ELSE f.needs \in Given /\ Cardinality({i \in ins : i.dep}) < MaxDep
             /\ LET off == Offset(form, ins, p) IN
                /\ typed' = SubSeq(typed, 1, off) \o TagSeq(f.toks, "t") \o SubSeq(typed, off + 1, Len(typed))
-               /\ ins' = ins \cup {[pos |-> p, kind |-> form[p], name |-> f.name, fl |-> f.fl, len |-> Len(f.toks), gives |-> f.gives]}
+               /\ ins' = ins \cup {[pos |-> p, kind |-> form[p], name |-> f.name, fl |-> f.fl, len |-> Len(f.toks), gives |-> f.gives, dep |-> f.needs # ""]}
   /\ exported' = FALSE
   /\ UNCHANGED <<fam, phase, form, used>>
 
@@ -522,7 +529,7 @@ TypeOK == /\ fam \in Families /\ phase \in {"derive", "insert"} /\ exported \in 
 EraseOK == phase = "insert" => Erase(typed) = Strip(form)
 (* the typed text is a function of (skeleton, insertion set): insertions commute *)
 RenderOK == phase = "insert" => typed = Render(form, ins, 1)
-Bounded == /\ Cardinality(ins) <= MaxIns
+Bounded == /\ Cardinality({i \in ins : ~i.dep}) <= MaxIns /\ Cardinality({i \in ins : i.dep}) <= MaxDep
            /\ \A i, j \in ins : i.pos = j.pos => i = j
            /\ \A i \in ins : IsSlot(form[i.pos]) /\ form[i.pos] = i.kind
            /\ phase = "derive" => ins = {} /\ typed = <<>>
